@@ -124,8 +124,8 @@ def _plain_eq(x, y):
 ALLOPS = O.CHEAP + O.ROOTS + O.TRANSFORMS + O.PARTS + ["hrms", "uss", "swe"]
 
 
-@harness(P, quick=grid(op=sorted(set(ALLOPS)), g=["G1"]) + grid(op=O.PEAKS, g=["P4"]), thorough=grid(op=sorted(set(ALLOPS)), g=["G2", "D6"]) + grid(op=O.PEAKS_SLOW, g=["P4"]), max_paths=3000)
-def accessor_ops(env, op, g):
+@harness(P, quick=grid(op=sorted(set(ALLOPS)), g=["G1"]) + grid(op=O.PEAKS, g=["P4"]) + grid(op=["smooth", "smooth13", "rotate", "ptm4", "bbox", "hs", "dm"], g=["G1"], intdir=[True]), thorough=grid(op=sorted(set(ALLOPS)), g=["G2", "D6"]) + grid(op=O.PEAKS_SLOW, g=["P4"]), max_paths=3000)
+def accessor_ops(env, op, g, intdir=False):
     """The DataArray (and the numpy buffer behind it), wind and depth arrays are unchanged after the call."""
     from vt.props.c02 import PG
     lead = (("site", 2),)
@@ -133,6 +133,9 @@ def accessor_ops(env, op, g):
         da, vals = mk_spec(env, (np.array(PG[g]["freq"]), np.array(PG[g]["dir"])), lead=lead)
     else:
         da, vals = mk_spec(env, g, lead=lead)
+    if intdir:
+        # integer-typed, already sorted direction coordinate (as produced by np.arange(0, 360, 90))
+        da = da.assign_coords(dir=np.asarray(da.dir.values, dtype=np.int64))
     da.attrs = {"units": "m2/Hz/deg", "note": "caller attribute"}
     da.encoding = {"dtype": "float32", "zlib": True}
     da["freq"].attrs = {"units": "Hz"}
